@@ -38,7 +38,7 @@ def guards_before(fn_body, target):
                 iff = s["e"]
                 t = canon(iff["t"])
                 kinds = [synq.last_seg(x["p"]) for x in walk(iff["t"]) if x.get("k") in ("struct", "path") and "LoweringDiagnosticKind::" in x.get("p", "")]
-                out.append((canon(iff["c"]), kinds, "return Expr::Missing" in t, s["ln"]))
+                out.append((canon(iff["c"]), kinds, "return Expr::Missing" in t, s["ln"], iff["c"]))
             if s["k"] == "local" and s.get("init") is not None and s["init"].get("k") == "if":
                 # guards inside `let file = if !fake { ... guards ...; file } else { .. }`
                 inner = s["init"]["t"]
@@ -46,8 +46,58 @@ def guards_before(fn_body, target):
                     if s2["k"] == "expr" and s2["e"].get("k") == "if":
                         iff = s2["e"]
                         kinds = [synq.last_seg(x["p"]) for x in walk(iff["t"]) if x.get("k") in ("struct", "path") and "LoweringDiagnosticKind::" in x.get("p", "")]
-                        out.append((canon(iff["c"]), kinds, "return Expr::Missing" in canon(iff["t"]), s2["ln"]))
+                        out.append((canon(iff["c"]), kinds, "return Expr::Missing" in canon(iff["t"]), s2["ln"], iff["c"]))
     return out
+
+
+def conjuncts(c):
+    """operands of a top-level chain of && (parentheses stripped)"""
+    while c.get("k") == "paren":
+        c = c["e"]
+    if c.get("k") == "bin" and c["op"] == "&&":
+        return conjuncts(c["l"]) + conjuncts(c["r"])
+    return [c]
+
+
+def only_and(c):
+    """the guard condition is a conjunction of negated tests (a disjunct would make the guard fire more often, a missing negation less)"""
+    return all(x.get("k") == "un" and x["op"] == "!" for x in conjuncts(c))
+
+
+def neg_mcalls(c):
+    """method calls that appear directly under a `!` conjunct of the condition"""
+    out = []
+    for x in conjuncts(c):
+        if x.get("k") == "un" and x["op"] == "!":
+            e = x["e"]
+            while e.get("k") == "paren":
+                e = e["e"]
+            if e.get("k") == "mcall":
+                out.append(e)
+    return out
+
+
+def lit_str(n):
+    return n.get("v") if n.get("k") == "lit" else None
+
+
+def arg_root(m):
+    """what an is_sub_dir_of argument is derived from: `mod_dir` (field/var) or `current_dir` (call)"""
+    t = canon(m["a"][0]) if m["a"] else ""
+    if "current_dir" in t:
+        return "current_dir"
+    if "mod_dir" in t:
+        return "mod_dir"
+    return t
+
+
+def mchain(n):
+    """(base expression, [(method, args)...]) of a receiver chain a.m1(..).m2(..)"""
+    ms = []
+    while n.get("k") == "mcall":
+        ms.append((n["m"], n["a"]))
+        n = n["r"]
+    return n, list(reversed(ms))
 
 
 def r28a(ctx, run):
@@ -61,19 +111,19 @@ def r28a(ctx, run):
     if len(mod_ins) != 1 or len(imp_ins) != 1:
         raise LookupError("cannot tell the #mod and #import registrations apart")
     need_mod = [
-        ("alphanumeric name", lambda c: c == "!file.chars().all(|ch| ch.is_ascii_alphanumeric())", "ModMustBeAlphanumeric"),
-        ("<mod_dir>/<m>/src is a directory", lambda c: "!mod_folder_path.is_dir()" in c, "ModDoesNotExist"),
-        ("<mod_dir>/<m>/src/mod.capy is a file", lambda c: "!mod_file_path.is_file()" in c, "ModDoesNotContainModFile"),
+        ("alphanumeric name", lambda g: any(m["m"] == "all" and any(x.get("k") == "mcall" and x["m"] == "is_ascii_alphanumeric" for x in walk(m)) for m in neg_mcalls(g)) and only_and(g), "ModMustBeAlphanumeric"),
+        ("<mod_dir>/<m>/src is a directory", lambda g: any(m["m"] == "is_dir" for m in neg_mcalls(g)) and only_and(g), "ModDoesNotExist"),
+        ("<mod_dir>/<m>/src/mod.capy is a file", lambda g: any(m["m"] == "is_file" for m in neg_mcalls(g)) and only_and(g), "ModDoesNotContainModFile"),
     ]
     need_imp = [
-        ("`.capy` suffix", lambda c: c == "!file.ends_with(\".capy\")", "ImportMustEndInDotCapy"),
-        ("resolved path is a file", lambda c: c == "!file.is_file()", "ImportDoesNotExist"),
-        ("inside mod_dir or cwd", lambda c: "!file.is_sub_dir_of(self.mod_dir)" in c and "!file.is_sub_dir_of(&env::current_dir().unwrap())" in c and "&&" in c, "ImportOutsideCWD"),
+        ("`.capy` suffix", lambda g: any(m["m"] == "ends_with" and [lit_str(a) for a in m["a"]] == [".capy"] for m in neg_mcalls(g)) and only_and(g), "ImportMustEndInDotCapy"),
+        ("resolved path is a file", lambda g: any(m["m"] == "is_file" for m in neg_mcalls(g)) and only_and(g), "ImportDoesNotExist"),
+        ("inside mod_dir or cwd", lambda g: sorted(arg_root(m) for m in neg_mcalls(g) if m["m"] == "is_sub_dir_of") == ["current_dir", "mod_dir"] and only_and(g), "ImportOutsideCWD"),
     ]
     for ins, need, which in ((mod_ins[0], need_mod, "#mod"), (imp_ins[0], need_imp, "#import")):
         gs = guards_before(f.body, ins)
         for name, pred, diag in need:
-            hit = [g for g in gs if pred(g[0])]
+            hit = [g for g in gs if pred(g[4])]
             good = len(hit) >= 1 and diag in hit[0][1] and hit[0][2]
             run.check(good, f.site(hit[0][3] if hit else ins["ln"]), "%s: guard `%s` precedes registration, reports %s and returns Missing" % (which, name, diag), F,
                       "guard:%s:%s" % (which, diag), f.file, hit[0][3] if hit else ins["ln"],
@@ -81,11 +131,33 @@ def r28a(ctx, run):
         # common guards: argument count, string argument, escape errors
         common = [g for g in gs if "DirectiveMismatchedArgCount" in g[1]] and [g for g in gs if g[0] == "(self.diagnostics.len() != old_diags_len)"]
         run.check(bool(common), f.site(), "%s: argument shape checked before anything else" % which, F, "shape:" + which, f.file, f.ln, "argument count / literal errors must stop the import")
-    # path construction
-    c = canon(f.body)
-    run.check("let mod_folder_path = self.mod_dir.join(&file).join(\"src\")" in c and "let mod_file_path = mod_folder_path.join(\"mod.capy\").clean()" in c, f.site(),
-              "#mod resolves to <mod_dir>/<m>/src/mod.capy", F, "mod-path", f.file, f.ln, "#mod must resolve to <mod_dir>/<m>/src/mod.capy")
-    run.check("env::current_dir().unwrap().join(self.file_name).join(\"..\").join(file).clean()" in c, f.site(), "#import resolves relative to the importing file's directory", F, "import-path",
+    # path construction (structural: receiver chains of the `let` initialisers, not their text)
+    lets = {}
+    for x in walk(f.body):
+        if x.get("k") == "local" and x.get("init") is not None and x["p"].get("k") == "p_ident":
+            lets.setdefault(x["p"]["n"], []).append(x["init"])
+
+    def chain_of(var):
+        return [mchain(i) for i in lets.get(var, [])]
+
+    def is_join_chain(ch, base_pred, joins, clean):
+        base, ms = ch
+        while ms and ms[0][0] in ("unwrap", "expect"):
+            ms = ms[1:]
+        names = [m for m, _ in ms]
+        want = ["join"] * len(joins) + (["clean"] if clean else [])
+        if names != want or not base_pred(base):
+            return False
+        return all(j(args) for j, (_, args) in zip(joins, ms))
+
+    lit = lambda v: (lambda args: len(args) == 1 and lit_str(args[0]) == v)
+    var = lambda v: (lambda args: len(args) == 1 and canon(args[0]).lstrip("&") in (v, "self." + v))
+    ok_folder = any(is_join_chain(c, lambda b: canon(b) == "self.mod_dir", [var("file"), lit("src")], False) for c in chain_of("mod_folder_path"))
+    ok_file = any(is_join_chain(c, lambda b: canon(b) == "mod_folder_path", [lit("mod.capy")], True) for c in chain_of("mod_file_path"))
+    run.check(ok_folder and ok_file, f.site(), "#mod resolves to <mod_dir>/<m>/src/mod.capy", F, "mod-path", f.file, f.ln, "#mod must resolve to <mod_dir>/<m>/src/mod.capy")
+    ok_imp = any(is_join_chain(c, lambda b: b.get("k") == "call" and "current_dir" in canon(b), [var("file_name"), lit(".."), var("file")], True)
+                 for c in chain_of("file"))
+    run.check(ok_imp, f.site(), "#import resolves relative to the importing file's directory", F, "import-path",
               f.file, f.ln, "#import must resolve as cwd/<importing file>/../<p>, cleaned")
     # what is registered is what was checked
     for ins, var, which in ((mod_ins[0], "mod_file_path", "#mod"), (imp_ins[0], "file", "#import")):
